@@ -69,7 +69,10 @@ class SArr(Sym):
 
     def norm_index(self, idx, n, I=None):
         """python int / SInt index with negative wrap (mathematical indexing inside specifications)."""
-        t = int_term(idx)
+        if isinstance(idx, SReal):          # an entry of an integer-valued array used as an index
+            t = z3.simplify(z3.ToInt(idx.t))
+        else:
+            t = int_term(idx)
         if I is not None and I.ctx.spec_mode:
             return t
         if I is not None and not isinstance(idx, int) and I.ctx.entails(t >= 0):
@@ -277,6 +280,16 @@ class SArr(Sym):
     def invert(self, I):
         a = self.at
         return SArr(self.ndim, self.n0, self.n1, lambda i, j: z3.Not(a(i, j)), "bool", True)
+
+    def pysum(self, I):
+        """builtin sum() of a boolean vector: a count that is zero exactly when no entry is true."""
+        if self.dtype != "bool" or self.ndim != 1:
+            raise Unsupported("sum() of a non-boolean array")
+        c = I.ctx.fresh("count", I_)
+        r = z3.Int("cnt_r")
+        a = self.at
+        I.ctx.assume(z3.And(c >= 0, (c == 0) == z3.Not(z3.Exists([r], z3.And(0 <= r, r < self.n0, a(r, 0))))))
+        return SInt(c)
 
     def method(self, I, name, args, kwargs, node):
         a = self.at
@@ -502,6 +515,17 @@ def np_empty(I, a, kw, node):
 
 def np_vstack(I, a, kw, node):
     parts = a[0]
+    if isinstance(parts, (list, tuple)) and all(isinstance(p, SArr) and p.ndim == 1 for p in parts):
+        n = parts[0].n0                      # stacking k vectors of length n gives a (k, n) matrix
+        for p in parts[1:]:
+            I.ctx.oblige("shape", p.n0 == n, I.line(node), note="vstack operands have the same length")
+
+        def at1(i, j):
+            t = parts[-1].at(j, 0)
+            for k in range(len(parts) - 2, -1, -1):
+                t = z3.If(i == k, parts[k].at(j, 0), t)
+            return t
+        return SArr(2, z3.IntVal(len(parts)), n, at1, "num", True)
     if isinstance(parts, (list, tuple)) and all(isinstance(p, SArr) and p.ndim == 2 for p in parts):
         n1 = parts[0].n1
         for p in parts[1:]:
@@ -543,6 +567,31 @@ def np_column_stack(I, a, kw, node):
     raise Unsupported(f"np.column_stack form {parts!r}")
 
 
+def np_mod(I, a, kw, node):
+    x, m = a
+    if not (isinstance(m, int) and m == 1):
+        raise Unsupported("np.mod with a modulus other than 1")
+    if not isinstance(x, SArr):
+        raise Unsupported("np.mod of a non-array")
+    f = x.at
+    return SArr(x.ndim, x.n0, x.n1, lambda i, j: f(i, j) - z3.ToReal(z3.ToInt(f(i, j))), "num", True)
+
+
+def np_less_equal(I, a, kw, node):
+    x, y = a
+    return SArr(x.ndim, x.n0, x.n1, lambda i, j: x.at(i, j) <= y.at(i, j), "bool", True)
+
+
+def _np_cmp(op):
+    def model(I, a, kw, node):
+        x, y = a
+        xv = (lambda i, j: x.at(i, j)) if isinstance(x, SArr) else (lambda i, j: rterm(x))
+        yv = (lambda i, j: y.at(i, j)) if isinstance(y, SArr) else (lambda i, j: rterm(y))
+        sh = x if isinstance(x, SArr) else y
+        return SArr(sh.ndim, sh.n0, sh.n1, lambda i, j: _cmp(op, xv(i, j), yv(i, j)), "bool", True)
+    return model
+
+
 def np_copy(I, a, kw, node):
     x = a[0]
     return SArr(x.ndim, x.n0, x.n1, x.at, x.dtype, True)
@@ -559,24 +608,55 @@ def np_where(I, a, kw, node):
     return SArr(c.ndim, c.n0, c.n1, lambda i, j: z3.If(c.at(i, j), xv(i, j), yv(i, j)), "num", True)
 
 
+def match_affine(e, p, ctx):
+    """e == i*p + k syntactically (up to commutativity) -> (i, k), else None."""
+    def same(x, y):
+        return x.eq(y) or (ctx is not None and ctx.entails(x == y))
+    if z3.is_app(e) and e.decl().kind() == z3.Z3_OP_ADD:
+        ch = e.children()
+        for idx, c in enumerate(ch):
+            if z3.is_app(c) and c.decl().kind() == z3.Z3_OP_MUL and len(c.children()) == 2:
+                x, y = c.children()
+                i = x if same(y, p) else (y if same(x, p) else None)
+                if i is not None:
+                    rest = [d for j, d in enumerate(ch) if j != idx]
+                    k = rest[0] if len(rest) == 1 else z3.Sum(rest)
+                    return i, k
+    if z3.is_app(e) and e.decl().kind() == z3.Z3_OP_MUL and len(e.children()) == 2:
+        x, y = e.children()
+        i = x if same(y, p) else (y if same(x, p) else None)
+        if i is not None:
+            return i, z3.IntVal(0)
+    return None
+
+
 def khatri_rao(I, a, kw, node):
+    """scipy.linalg.khatri_rao(A, B)[i*p + k, c] = A[i, c] * B[k, c]  (p = rows of B)."""
     A, B = a
+    A.resolve_rank(I)
+    B.resolve_rank(I)
     if A.ndim != 2 or B.ndim != 2:
         raise Unsupported("khatri_rao of non-matrices")
     I.ctx.oblige("shape", A.n1 == B.n1, I.line(node), note="khatri_rao operands have the same number of columns")
-    # K[i*p + k, c] = A[i, c] * B[k, c]; stated through an uninterpreted K with the defining axiom
     p = B.n0
     K = z3.Function(str(I.ctx.fresh("kr.el", I_)), I_, I_, R)
     i, k, c = z3.Ints("kr_i kr_k kr_c")
     I.ctx.assume(z3.ForAll([i, k, c], z3.Implies(z3.And(0 <= i, i < A.n0, 0 <= k, k < p, 0 <= c, c < A.n1),
-                                                 K(i * p + k, c) == A.at(i, c) * B.at(k, c)),
-                           patterns=[z3.MultiPattern(A.at(i, c), B.at(k, c))] if False else []))
-    return SArr(2, z3.simplify(A.n0 * p), A.n1, lambda r, cc: K(r, cc), "num", True)
+                                                 K(i * p + k, c) == A.at(i, c) * B.at(k, c))))
+    ctx = I.ctx
+
+    def at(r, cc):
+        m = match_affine(r, p, ctx)
+        if m is not None:
+            return A.at(m[0], cc) * B.at(m[1], cc)
+        return K(r, cc)
+    return SArr(2, z3.simplify(A.n0 * p), A.n1, at, "num", True)
 
 
 def external_objects():
     import numpy as np
     from scipy import linalg
     return {np.eye: np_eye, np.zeros: np_zeros, np.ones: np_ones, np.empty: np_empty, np.vstack: np_vstack,
-            np.column_stack: np_column_stack, np.copy: np_copy, np.asarray: np_asarray, np.where: np_where,
+            np.column_stack: np_column_stack, np.copy: np_copy, np.mod: np_mod, np.less_equal: np_less_equal, np.greater: _np_cmp('>'), np.less: _np_cmp('<'),
+            np.greater_equal: _np_cmp('>='), np.equal: _np_cmp('=='), np.not_equal: _np_cmp('!='), np.asarray: np_asarray, np.where: np_where,
             linalg.khatri_rao: khatri_rao}
